@@ -165,10 +165,9 @@ def harnesses(tier: str) -> List[H]:
     cfgs = [("func", False, "factory"), ("method", False, "factory"), ("init", False, "factory"),
             ("method", True, "factory"), ("func", False, "default")]
     if tier == "thorough":
-        cfgs += [("func", True, "factory"), ("static", False, "factory"), ("class", False, "factory"),
-                 ("prop_get", False, "factory"), ("prop_set", False, "factory"), ("prop_del", False, "factory"),
-                 ("new", False, "factory"), ("method", False, "default"), ("method", False, "class"),
-                 ("static", True, "factory"), ("class", True, "factory")]
+        cfgs += [("func", True, "factory"), ("static", False, "factory"), ("class", True, "factory"),
+                 ("prop_get", False, "factory"), ("prop_set", False, "factory"), ("new", False, "factory"),
+                 ("method", False, "default")]
     SP = ["kind_i", "tp", "tq"]
     out.append(H("shared_predicate", bind(run_shared_predicate, (), SP, {}, SP), [I("kind_i", 0, 1), B("tp"), B("tq")],
                  tiers=(tier,), timeout=200,
